@@ -213,37 +213,107 @@ Section Spec.
     match snd (complete_root root data) with [] => true | _ => false end.
 End Spec.
 
-(* ---- plan well-formedness (what the planner guarantees and the theorems assume) ---- *)
+(* ---- plan well-formedness (what the theorems assume about a plan) ----
+   Node paths are arbitrary key sequences (length 0, 1, 2, ...): a field value may read its data
+   several levels below the enclosing object (["data";"user"]) or be the enclosing object itself
+   (empty path: a flattened / virtual object).  The pre-walk writes nulls into the data in place, so
+   two fields of one object must not read through one another: the data paths read below one object
+   value ([rpaths], looking through flattened objects) are pairwise prefix-incomparable -- which
+   includes "distinct", allows shared proper prefixes (["n";"a"] next to ["n";"b"]) and a segment
+   equal to a sibling's key (["b";"a"] next to ["a"]). *)
 Fixpoint no_special (s : bytes) : bool :=
   match s with
   | [] => true
   | c :: r => negb (c =? 34) && negb (c =? 92) && (32 <=? c) && no_special r
   end.
-Fixpoint distinct_paths (ps : list (list bytes)) : bool :=
+Fixpoint is_prefix (a b : list bytes) : bool :=
+  match a, b with
+  | [], _ => true
+  | x :: a', y :: b' => bytes_eqb x y && is_prefix a' b'
+  | _ :: _, [] => false
+  end.
+Definition comparable (a b : list bytes) : bool := is_prefix a b || is_prefix b a.
+Fixpoint incomparable_all (ps : list (list bytes)) : bool :=
   match ps with
   | [] => true
-  | p :: r => negb (existsb (fun q => (fix eq (a b : list bytes) : bool :=
-                                         match a, b with
-                                         | [], [] => true
-                                         | x :: a', y :: b' => bytes_eqb x y && eq a' b'
-                                         | _, _ => false
-                                         end) p q) r) && distinct_paths r
+  | p :: r => forallb (fun q => negb (comparable p q)) r && incomparable_all r
   end.
-Definition single_key (p : list bytes) : bool := match p with [_] => true | _ => false end.
 Definition has_path_kind (n : node) : bool :=
   match n with NNull | NStatic _ | NEmptyObj | NEmptyArr => false | _ => true end.
 Definition typename_key : bytes := [95;95;116;121;112;101;110;97;109;101].
 
-(* [as_item]: the node is a list item (empty path) rather than a field value (one key) *)
-Fixpoint plan_wf (as_item : bool) (depth : nat) (n : node) : bool :=
-  (if has_path_kind n then (if as_item then match node_path n with [] => true | _ => false end
-                            else single_key (node_path n)) else true) &&
+(* the data paths, relative to the value of the enclosing object, that a field value reads (and
+   below which the pre-walk may write); an object with an empty path is that same value *)
+Fixpoint rpaths (n : node) : list (list bytes) :=
+  match n with
+  | NNull | NStatic _ | NEmptyObj | NEmptyArr => []
+  | NObj [] _ _ _ _ _ fields =>
+    (fix go (fs : list field) : list (list bytes) :=
+       match fs with
+       | [] => []
+       | Fld _ _ _ _ c :: rest => rpaths c ++ go rest
+       end) fields
+  | _ => [node_path n]
+  end.
+Definition head_not_typename (p : list bytes) : bool :=
+  match p with k :: _ => negb (bytes_eqb k typename_key) | [] => true end.
+
+Fixpoint plan_wf (depth : nat) (n : node) : bool :=
   match n with
   | NStatic v => no_special v
-  | NArr _ _ item => plan_wf true depth item
+  | NArr _ _ item => plan_wf depth item
   | NObj _ _ _ _ _ _ fields =>
-    distinct_paths (map (fun f => match f with Fld _ _ _ _ c => node_path c end)
-                        (filter (fun f => match f with Fld _ _ _ _ c => has_path_kind c end) fields)) &&
+    incomparable_all ((fix go (fs : list field) : list (list bytes) :=
+                         match fs with
+                         | [] => []
+                         | Fld _ _ _ _ c :: rest => rpaths c ++ go rest
+                         end) fields) &&
+    (fix go (fs : list field) : bool :=
+       match fs with
+       | [] => true
+       | Fld name on parent_on auth child :: rest =>
+         no_special name &&
+         (match parent_on with
+          | Some conds => forallb (fun c => Nat.leb (fst c) depth) conds
+          | None => true
+          end) &&
+         (* an authorization rule sits on a field that has a key of its own in the data, other than
+            "__typename" (a denied field is nulled in place under that key) *)
+         (match auth with
+          | Some _ => has_path_kind child && (match node_path child with [] => false | _ => true end)
+                      && head_not_typename (node_path child)
+          | None => true
+          end) &&
+         (* an object or list is never read through the key "__typename" of the enclosing object *)
+         (match child with
+          | NObj p _ _ _ _ _ _ | NArr p _ _ => head_not_typename p
+          | _ => true
+          end) &&
+         plan_wf (S depth) child && go rest
+       end) fields
+  | _ => true
+  end.
+Definition root_wf (root : node) : bool :=
+  match root with
+  | NObj [] false _ _ _ false _ => plan_wf 0 root
+  | _ => false
+  end.
+
+(* [plan_wf] with one of its two path clauses lifted: [lift_incomp] drops "sibling data paths are
+   prefix-incomparable", [lift_authkey] drops "an authorization rule sits on a field with a key of its
+   own".  Not used by any theorem: the driver uses it to say which clause a plan outside [plan_wf]
+   violates, so that what the implementation does there is reported under its own finding key. *)
+Fixpoint plan_wf_upto (lift_incomp lift_authkey : bool) (depth : nat) (n : node) : bool :=
+  match n with
+  | NStatic v => no_special v
+  | NArr _ _ item => plan_wf_upto lift_incomp lift_authkey depth item
+  | NObj _ _ _ _ _ _ fields =>
+    (lift_incomp ||
+     incomparable_all ((fix go (fs : list field) : list (list bytes) :=
+                          match fs with
+                          | [] => []
+                          | Fld _ _ _ _ c :: rest => rpaths c ++ go rest
+                          end) fields)) &&
     (fix go (fs : list field) : bool :=
        match fs with
        | [] => true
@@ -254,21 +324,22 @@ Fixpoint plan_wf (as_item : bool) (depth : nat) (n : node) : bool :=
           | None => true
           end) &&
          (match auth with
-          | Some _ => has_path_kind child && negb (bytes_eqb (match node_path child with [k] => k | _ => [] end) typename_key)
+          | Some _ => lift_authkey ||
+                      (has_path_kind child && (match node_path child with [] => false | _ => true end)
+                       && head_not_typename (node_path child))
           | None => true
           end) &&
-         (* an object or list never sits under the key "__typename" *)
          (match child with
-          | NObj [k] _ _ _ _ _ _ | NArr [k] _ _ => negb (bytes_eqb k typename_key)
+          | NObj p _ _ _ _ _ _ | NArr p _ _ => head_not_typename p
           | _ => true
           end) &&
-         plan_wf false (S depth) child && go rest
+         plan_wf_upto lift_incomp lift_authkey (S depth) child && go rest
        end) fields
   | _ => true
   end.
-Definition root_wf (root : node) : bool :=
+Definition root_wf_upto (lift_incomp lift_authkey : bool) (root : node) : bool :=
   match root with
-  | NObj [] false _ _ _ false _ => plan_wf true 0 root
+  | NObj [] false _ _ _ false _ => plan_wf_upto lift_incomp lift_authkey 0 root
   | _ => false
   end.
 
